@@ -82,7 +82,23 @@ def gen_cases(tier, seed):
                            'how': rng.choice(HOW),
                            'issuer': rng.choice(ISSUERS),
                            'delay': rng.choice([0, 0, 1, 2])})
-        yield {'handles': nh, 'script': script}
+        yield {'handles': nh, 'script': script,
+               # many events sent to the worlds that were left
+               'flood': rng.choice([0, 0, 0, 300]),
+               # worlds are instances of a World subclass that is falsy
+               'falsy_world': rng.random() < 0.3}
+    for i in range(3 if tier == 'quick' else 48):
+        rng = random.Random(f'C13/scale/{seed}/{tier}/{i}')
+        yield {'handles': 2, 'flood': 300, 'falsy_world': i % 2 == 1,
+               'script': [{'target': 1, 'cc': False, 'cn': False,
+                           'how': rng.choice(HOW[:2]), 'issuer': 'proc',
+                           'delay': 0},
+                          {'target': 0, 'cc': False, 'cn': False,
+                           'how': rng.choice(HOW[:2]),
+                           'issuer': rng.choice(ISSUERS), 'delay': 1},
+                          {'target': 1, 'cc': False, 'cn': False,
+                           'how': 'switch_explicit', 'issuer': 'proc',
+                           'delay': 0}]}
 
 
 def run_case(case):
@@ -154,10 +170,17 @@ def run_case(case):
                               else None),
                   is_current=loop.current_world is w)
             # events dispatched on worlds that were left must be held
+            burst = 1
+            if case.get('flood') and not st.get('flooded') \
+                    and len(instances) > 1:
+                st['flooded'] = True
+                burst = case['flood']
             for uid, other in instances.items():
                 if other is not w:
-                    st['probe'] = st.get('probe', 0) + 1
-                    other.dispatch('probe', st['probe'])
+                    for _ in range(burst):
+                        st['probe'] = st.get('probe', 0) + 1
+                        entry('probe_sent', uid, token=st['probe'])
+                        other.dispatch('probe', st['probe'])
 
     class IssuerProc(desper.Processor):
         priority = 5
@@ -225,6 +248,11 @@ def run_case(case):
             world.create_entity(other)
         world.get_processor(desper.CoroutineProcessor).start(coroutine(world))
 
+    class FalsyWorld(desper.World):
+        """A user World subclass whose instances are falsy."""
+        def __len__(self):
+            return 0
+
     class LH(desper.WorldHandle):
         def __init__(self, index):
             super().__init__()
@@ -232,6 +260,17 @@ def run_case(case):
             self.transform_functions.append(
                 desper.default_processors_transformer)
             self.transform_functions.append(build)
+
+        def load(self):
+            if not case.get('falsy_world'):
+                return super().load()
+            # what WorldHandle.load documents, for a World subclass
+            world = FalsyWorld()
+            world.dispatch_enabled = False
+            for transform_function in self.transform_functions:
+                transform_function(self, world)
+            world.dispatch('on_world_load', self, world)
+            return world
 
     handles = [LH(i) for i in range(case['handles'])]
     saved = desper.default_loop
@@ -281,6 +320,7 @@ def judge(case, res, log, handles):
     current_since = first['seq']
     left = {}               # uid -> seq at which it was left (still left)
     held = set()            # left through switch(), not entered again yet
+    held_since = {}         # uid -> log index at which it was left that way
     queued_while_left = set()
     returned_with_queue = False
     for r, req_entry in enumerate(requests):
@@ -391,6 +431,26 @@ def judge(case, res, log, handles):
         if W in left and W != F:
             if any(e['kind'] == 'probe' and e['w'] == W for e in window):
                 returned_with_queue = True
+        if W in held_since and W != F:
+            sent = [e['token'] for e in log[held_since[W]:p + 1]
+                    if e['kind'] == 'probe_sent' and e['w'] == W]
+            got = [e['token'] for e in window
+                   if e['kind'] == 'probe' and e['w'] == W]
+            res.stats['held_events_checked'] += len(sent)
+            res.tags['held_queue_length'].add(min(len(sent) // 50 * 50, 400))
+            if got != sent:
+                missing = [t for t in sent if t not in set(got)]
+                return fail(r, 'held-events-release', 'a world that was left '
+                            'through switch() must deliver, when it is '
+                            'entered again, exactly the events it was sent '
+                            'meanwhile, in order', f'{len(sent)} events',
+                            f'{len(got)} delivered; first missing '
+                            f'{missing[:3]}', sent=len(sent), got=len(got))
+        held_since.pop(W, None)
+        if req['how'] != 'raise' and F != W:
+            held_since[F] = p
+        elif req['how'] == 'raise':
+            held_since.pop(F, None)
         left[F] = p
         left.pop(W, None)
         frames = log[nxt['seq']:requests[r + 1]['seq']] if r + 1 < len(
